@@ -100,6 +100,67 @@ def nascObs (r : Except Err Nasc) : Option (String × Hdrs × List (String × Ra
 
 theorem nasc_setters_effect : nascWitness.all (fun p => nascObs (nascBase.apply p.1) != nascObs (nascBase.apply p.2)) = true := by decide
 
+/-! ### nnas / nasc: the arguments of a setter are carried in their documented place — for **all** values
+(0, the empty string, … are not special), on every later request, until a setter of the same group is called again -/
+
+theorem nnas_setter_carried (s : Nnas) (st : NnasSet) (auth cert : Option String) :
+    ∀ f ∈ st.fields, f ∈ (s.apply st).prepare auth cert := by
+  cases st <;> simp [NnasSet.fields, Nnas.apply, Nnas.prepare]
+
+theorem nnas_login_carried (s : Nnas) (st : NnasSet) (u p : String) (t : Option String) :
+    ∀ f ∈ st.fields ++ st.loginFields, f ∈ ((s.apply st).login u p t).2.headers := by
+  intro f hf
+  rcases List.mem_append.mp hf with h | h
+  · exact nnas_setter_carried s st none _ f h
+  · cases st <;> simp [NnasSet.loginFields] at h
+    rename_i id serial sv c
+    cases c <;> simp [NnasSet.loginFields] at h
+    subst h
+    simp [Nnas.login, Nnas.apply, Nnas.prepare]
+
+/-- a setter of another attribute group does not disturb what an earlier setter configured -/
+theorem nnas_setter_persists (s : Nnas) (st st' : NnasSet) (h : st.kind ≠ st'.kind) (auth cert : Option String) :
+    ∀ f ∈ st.fields, f ∈ ((s.apply st).apply st').prepare auth cert := by
+  cases st <;> cases st' <;> simp [NnasSet.kind] at h <;> simp [NnasSet.fields, Nnas.apply, Nnas.prepare]
+
+/-- "by default, these headers are omitted" -/
+theorem nnas_optional_omitted (auth cert : Option String) : ∀ p ∈ ({} : Nnas).prepare auth cert, p.1 ∉ nnasOptionalHeaders := by
+  intro p hp
+  cases auth <;> cases cert <;> simp [Nnas.prepare] at hp <;> rcases hp with h | h | h | h | h | h | h | h | h | h | h | h | h | h <;>
+    (try subst h) <;> simp [nnasOptionalHeaders]
+
+/-- every public call sends exactly the prepared headers -/
+theorem nnas_calls_prepare (s : Nnas) (tok cid : String) (g : Nat) (pids : List Nat) (nnids : List String) :
+    (s.getNexToken tok g).2.headers = s.prepare (some tok) none ∧ (s.getServiceToken tok cid).2.headers = s.prepare (some tok) none ∧
+    (s.getProfile tok).2.headers = s.prepare (some tok) none ∧ (s.getMiis pids).2.headers = s.prepare none none ∧
+    (s.getPids nnids).2.headers = s.prepare none none ∧ (s.getNnids pids).2.headers = s.prepare none none :=
+  ⟨rfl, rfl, rfl, rfl, rfl, rfl⟩
+
+theorem nasc_setter_carried (s s' : Nasc) (st : NascSet) (h : s.apply st = .ok s') (g : Nat) (nick dt : String)
+    (F : List (String × RawV)) (hF : s'.form g nick dt = some F) : ∀ f ∈ st.fields, f ∈ F := by
+  cases st <;> simp [Nasc.apply] at h
+  case title id v pc mc mt rom =>
+    obtain ⟨_, h⟩ := h; subst h
+    simp [Nasc.form] at hF
+    split at hF <;> simp at hF
+    subst hF
+    rename_i t n ht hn
+    simp at ht; subst ht
+    by_cases hm : mt = 2 <;> simp [NascSet.fields, Nasc.rawFields, hm]
+  all_goals
+    subst h
+    simp [Nasc.form] at hF
+    split at hF <;> simp at hF
+    subst hF
+    rename_i t n ht hn
+    simp at ht hn
+    try subst hn
+    simp [NascSet.fields, Nasc.rawFields]
+
+theorem nasc_setter_hdr_carried (s s' : Nasc) (st : NascSet) (h : s.apply st = .ok s') (g : Nat) :
+    ∀ f ∈ st.hdrFields, f ∈ s'.loginHeaders g := by
+  cases st <;> simp [Nasc.apply] at h <;> (try obtain ⟨_, h⟩ := h) <;> subst h <;> simp [NascSet.hdrFields, Nasc.loginHeaders]
+
 /-! ### hpp -/
 
 theorem hpp_set_environment : Hpp.host { gameServerId := 0x1234, environment := "L1" } ≠ Hpp.host { gameServerId := 0x1234, environment := "D1" } := by
